@@ -41,6 +41,7 @@ def check(run, repo, tier):
   V(run, repo, r4_manual_updates)
   V(run, repo, r5_rebuild_trigger)
   V(run, repo, r6_enum, repo)
+  H.finish_views(run, repo)
 
 
 def _within(t, container):
@@ -322,7 +323,7 @@ def r2_new_records(run, w):
     flow2 = H.Flow(ic2)
     inc = b.get("include_self")
     ok = inc is not None and len(dps) >= 3 and dps[2] in b and text(b[dps[2]]) == cps[2] and \
-        text(flow2.du.inline(inc)).replace("(", "").replace(")", "") == \
+        text(H.inline(flow2, inc)).replace("(", "").replace(")", "") == \
         "%s.is_formula or %s.has_formula and %s" % (cps[1], cps[1], cps[3])
   run.ob(R2, ic2.qualname, "include_self = is_formula() or (has_formula() and recompute_data_col)",
          "a data column is itself recomputed only when it has a formula and the caller asked "
